@@ -342,7 +342,7 @@ class SymWorld:
         c.frames = []
         c.sendMessage = lambda payload, isBinary=False, c=c: self._on_send(c, payload)
         self.conns.append(c)
-        self.script.append(("conn", label, open_))
+        self.script.append(("conn", label, open_, self.phase))
         if open_:
             c.onOpen()
         return c
@@ -391,7 +391,11 @@ class SymWorld:
         for st in (self.db, self.usage):
             if st is not None and (st.dirty or st.in_tx):
                 st.rollback()
+        # the new process reads the clock once at start-up (`rebooted`): its own draw sequence, so that
+        # the runs of a product stay aligned on the clock readings of the commands
+        ph, self.phase = self.phase, "restart"
         self.server = self._make_server()
+        self.phase = ph
 
     def set_attr(self, c, attr, value):
         """override a plain per-connection protocol flag (recorded for replay)"""
